@@ -109,7 +109,7 @@ static void print_result(const char *tag, uint64_t idx, uint64_t seed, const Pla
 	if (g_leak_mode && leak_found(leak, sizeof(leak))) {
 		char *bar = strchr(leak, '|');
 		if (bar) *bar = 0;
-		fprintf(g_out, " leak=%s leakdetail=\"%s\"", leak, bar ? bar + 1 : "");
+		fprintf(g_out, " leak=%s:%s leakdetail=\"%s\"", leak, p->op ? "op" : g_proto_names[p->proto % 3], bar ? bar + 1 : "");
 	}
 	fprintf(g_out, "\n");
 }
